@@ -413,6 +413,9 @@ def size_of(e):
 
 
 def run(ctx):
+    # regenerate Gen/Gen_Walkers.v (walker dispatch tables) from $UP_REPO before the theorems are re-checked
+    from harness.ext._dispatch_common import prepare as _prepare_dispatch
+    _prepare_dispatch(ctx)
     import time as _time
     _t0 = _time.time()
     phases = {}
